@@ -15,6 +15,7 @@ import Rsa.Lemmas.C15More
 import Rsa.Lemmas.C15Single
 import Rsa.Lemmas.C15One
 import Rsa.Lemmas.C15Cv
+import Rsa.Lemmas.C15PoisCv
 import Mathlib.Analysis.Real.Sqrt
 
 set_option linter.unusedSectionVars false
@@ -87,8 +88,20 @@ theorem unb_eq_spec (c : Cfg K) (hhalf : c.half = 1 / two)
     rw [pairKey_self] at haa hbb
     unfold distOf specDist
     rw [haa, hbb, hab']
+    cases specSim c a a <;> cases specSim c b b <;> cases specSim c a b <;> rfl
   refine ⟨hd, ?_⟩
   exact assemble_eq c.n (finalize (calcLoop c)) (fun a b => specDist c a b) hd
+
+/-- the Python layer's combination (generated leaf `combine`, from the text
+    `self_sim[row_idx] + self_sim[col_idx] - 2 * rdm`) is `self_a + self_b − 2·cross_ab`, and
+    the Poisson preprocessing constants (leaves `priorLambdaL`, `priorWeightL`) give
+    `d = (x + λ·w) / (1 + w)` -/
+theorem leaf_combine_and_prior (sa sb cab lam pw x : K) :
+    combine sa sb cab = sa + sb - two * cab ∧
+    (x + priorLambdaL lam pw) / priorWeightL pw = (x + lam * pw) / (1 + pw) := by
+  constructor
+  · rfl
+  · unfold priorLambdaL priorWeightL; simp
 
 /-! ### equality with the balanced estimators -/
 
@@ -248,13 +261,12 @@ example : let desc : Nat → Nat := fun i => if i < 4 then 0 else 1
     (∀ f, f < 2 → nInFold 6 desc cv 0 f = 2) ∧ (∀ f, f < 2 → nInFold 6 desc cv 1 f = 1) := by
   decide
 
-/-- `poisson_cv`: full statement (one observation per condition and fold, `F ≥ 2` folds:
-    the unbalanced estimator equals the cross-validated KL of `calc_rdm_poisson_cv`).  Not
-    proved in Lean: the Poisson kernel is not a bilinear form of the two observations, the
-    regrouping argument of `unb_cv_eq_balanced` has to be redone for
-    `½(⟨d_j,l_i⟩ + ⟨d_i,l_j⟩ − ⟨d_i,l_i⟩ − ⟨d_j,l_j⟩)`.  What is proved for it:
-    `entry_eq_rectangle_average` (no within-fold product enters) — and the driver evaluates
-    both sides on every balanced `poisson_cv` case of the correspondence. -/
+/-- `poisson_cv`: full statement — one observation per condition and fold, `F ≥ 2` folds: the
+    unbalanced estimator equals the cross-validated symmetrised KL of `calc_rdm_poisson_cv`
+    (mean over ordered pairs of different folds of `Σ (d_a^f − d_b^f)(l_a^g − l_b^g) / P`, the
+    form proved for C02 in `Rsa.Props.C02.poissoncv_eq_pair_average`).  With more than one
+    observation per cell theory does not demand equality (log of a mean ≠ mean of logs).
+    Proved below as `unb_poisson_cv_eq_balanced`. -/
 def unb_poisson_cv_eq_balanced_full : Prop :=
   ∀ (c : Cfg K) (P F : Nat) (D L : Nat → Nat → K),
     (∀ i j, c.kern i j =
@@ -267,8 +279,26 @@ def unb_poisson_cv_eq_balanced_full : Prop :=
     distOf c.n (finalize (calcLoop c)) a b
       = some (cvPoissonSpec F P (foldMean c.nObs c.desc c.cv D) (foldMean c.nObs c.desc c.cv L) a b)
 
-/-- the part proved: with the (symmetric) Poisson kernel every cross-validated entry is the
-    average over ordered pairs from different folds -/
+/-- **poisson_cv on a design with one observation per condition and fold** equals the
+    balanced estimator: the full statement above holds (any "log" vectors `L`, so any
+    logarithm; the regrouping by folds is done for the non-bilinear kernel
+    `½(⟨d_j,l_i⟩ + ⟨d_i,l_j⟩ − ⟨d_i,l_i⟩ − ⟨d_j,l_j⟩)`). -/
+theorem unb_poisson_cv_eq_balanced : unb_poisson_cv_eq_balanced_full (K := K) := by
+  intro c P F D L hkern hP hcv hnum hhalf hdesc hF2 hF a b hab hb hua hub
+  have hB : PoisCfg c P D L := { kern := hkern, posP := hP }
+  rw [(unb_eq_spec c hhalf hdesc).1 a b hab hb]
+  exact specDist_pois_cv hB hcv hnum F hF2 hF a b
+    (fun f hf => by rw [nAF_eq_nInFold, hua f hf]; simp)
+    (fun f hf => by rw [nAF_eq_nInFold, hub f hf]; simp)
+
+/-- non-vacuity: 2 conditions × 3 folds, one observation per cell -/
+example : let desc : Nat → Nat := fun i => i % 2
+    let cv : Nat → Nat := fun i => i / 2
+    (∀ f, f < 3 → nInFold 6 desc cv 0 f = 1) ∧ (∀ f, f < 3 → nInFold 6 desc cv 1 f = 1) := by
+  decide
+
+/-- (kept from round 1, now a corollary-level fact) with the symmetric Poisson kernel every
+    cross-validated entry is the average over ordered pairs from different folds -/
 theorem unb_poisson_cv_partial (c : Cfg K) (P : Nat) (D L : Nat → Nat → K)
     (hkern : ∀ i j, c.kern i j =
       poissonK P (fun ch => some (D i ch, L i ch)) (fun ch => some (D j ch, L j ch)))
